@@ -400,6 +400,43 @@ def rename_comp_vars(tree: ast.AST) -> ast.AST:
     return R().visit(tree)
 
 
+def _lift_ifexp(tree: ast.AST) -> int:
+    """`xs.append(A if c else B)` -> `if c: xs.append(A) else: xs.append(B)`; same for `return A if c else B` and
+    `t = A if c else B`: a choice written as a conditional expression reads like the statement-level choice"""
+    done = 0
+    for holder in ast.walk(tree):
+        for fld in ("body", "orelse", "finalbody"):
+            block = getattr(holder, fld, None)
+            if not isinstance(block, list) or not block or not isinstance(block[0], ast.stmt):
+                continue
+            for i, stmt in enumerate(block):
+                ife = None
+                if isinstance(stmt, ast.Expr) and isinstance(stmt.value, ast.Call) and len(stmt.value.args) == 1 and not stmt.value.keywords and isinstance(stmt.value.args[0], ast.IfExp) and _plain(stmt.value.func):
+                    ife = stmt.value.args[0]
+
+                    def mk(v: ast.expr, stmt: ast.stmt = stmt) -> ast.stmt:
+                        new = copy.deepcopy(stmt)
+                        new.value.args = [v]  # type: ignore[attr-defined]
+                        return new
+                elif isinstance(stmt, (ast.Return, ast.Assign, ast.AnnAssign)) and isinstance(stmt.value, ast.IfExp) and (
+                    isinstance(stmt, ast.Return) or (isinstance(stmt, ast.Assign) and len(stmt.targets) == 1 and isinstance(stmt.targets[0], ast.Name)) or (isinstance(stmt, ast.AnnAssign) and isinstance(stmt.target, ast.Name))
+                ):
+                    ife = stmt.value
+
+                    def mk(v: ast.expr, stmt: ast.stmt = stmt) -> ast.stmt:  # type: ignore[misc]
+                        new = copy.copy(stmt)
+                        new.value = v  # type: ignore[attr-defined]
+                        return new
+                if ife is None:
+                    continue
+                new_if = ast.If(test=ife.test, body=[mk(ife.body)], orelse=[mk(ife.orelse)])
+                ast.copy_location(new_if, stmt)
+                ast.fix_missing_locations(new_if)
+                block[i] = new_if
+                done += 1
+    return done
+
+
 def fold_accumulator(name: str, init: ast.expr, loop: ast.stmt) -> Optional[ast.expr]:
     """inverse of the expansion: `name = [] / set() / {}` followed by a loop nest whose only effect is
     `name.append(E)` / `name.add(E)` / `name[K] = V`  ->  the comprehension that says the same"""
@@ -424,6 +461,22 @@ def fold_accumulator(name: str, init: ast.expr, loop: ast.stmt) -> Optional[ast.
             break
     if not gens:
         return None
+    # `if c: name.append(A) else: name.append(B)` as the innermost statement: the element is `A if c else B`
+    if kind in ("list", "set") and isinstance(cur, ast.If) and len(cur.body) == 1 and len(cur.orelse) == 1:
+        meth = "append" if kind == "list" else "add"
+
+        def arg_of(s: ast.stmt) -> Optional[ast.expr]:
+            if isinstance(s, ast.Expr) and isinstance(s.value, ast.Call) and isinstance(s.value.func, ast.Attribute) and isinstance(s.value.func.value, ast.Name) and s.value.func.value.id == name \
+                    and s.value.func.attr == meth and len(s.value.args) == 1 and not s.value.keywords:
+                return s.value.args[0]
+            return None
+
+        a, b = arg_of(cur.body[0]), arg_of(cur.orelse[0])
+        if a is not None and b is not None:
+            elt = ast.IfExp(test=cur.test, body=a, orelse=b)
+            if any(isinstance(n, ast.Name) and n.id == name for g in gens for n in ast.walk(g)) or any(isinstance(n, ast.Name) and n.id == name for n in ast.walk(elt)):
+                return None
+            return (ast.ListComp if kind == "list" else ast.SetComp)(elt=elt, generators=gens)
     # `name.extend(E)` / `name.update(E)` as the innermost statement: one more generator over E
     if kind in ("list", "set") and isinstance(cur, ast.Expr) and isinstance(cur.value, ast.Call) and isinstance(cur.value.func, ast.Attribute) and isinstance(cur.value.func.value, ast.Name) \
             and cur.value.func.value.id == name and cur.value.func.attr == ("extend" if kind == "list" else "update") and len(cur.value.args) == 1 and not cur.value.keywords:
@@ -505,6 +558,9 @@ def normal_form(tree: ast.Module) -> ast.Module:
         for node in ast.walk(tree):
             if isinstance(node, (ast.FunctionDef, ast.AsyncFunctionDef)):
                 _expand_comprehensions(node)
+    for _ in range(3):
+        if not _lift_ifexp(tree):
+            break
     done = 0
     for node in ast.walk(tree):
         if isinstance(node, (ast.FunctionDef, ast.AsyncFunctionDef)):
